@@ -1,6 +1,6 @@
 (* The run folder as a finite map  path |-> content, what a finished Pipeline.map leaves in it, and the readers:
    RunInfo.load (incl. the re-dump done by __post_init__), RunInfo.init_store / _init_arrays, FileArray.to_array,
-   DictArray.load / to_array, SharedMemoryDictArray.persist / load, _maybe_persist_memory, _load_from_store,
+   DictArray.persist / load / to_array (also used by SharedMemoryDictArray), _maybe_persist_memory, _load_from_store,
    load_outputs.  A fresh process = the same files, no live manager process.  Definitions only. *)
 From Verif Require Import Base.Prelude Base.StrUtil Base.Index Base.NdArr Model.MapSpec Model.MapRun Model.SymBody
   Model.RunInfoCodec.
@@ -172,7 +172,8 @@ Definition init_array (w : world) (k : skind) (o : str) (sh : list nat) (mask : 
   match k with
   | FileArrayK => Ok (SFileArr o sh mask, mkdir w o)
   | DictK | SharedDictK =>
-      (* DictArray.load / SharedMemoryDictArray.load (the latter copies the loaded items into its fresh managed dict) *)
+      (* DictArray.load (also for SharedMemoryDictArray): self._dict = load(path), a plain dict since persist dumps
+         dict(self._dict) *)
       if dir_exists w o then
         do pv <- unpickle w (PDictFile o);
         match pv with
@@ -306,7 +307,8 @@ Inductive out_desc :=
 | OSingle (o : str) (v : val).
 Definition od_name (d : out_desc) : str := match d with OMapped o _ _ _ => o | OSingle o _ => o end.
 
-(* `legacy` = the protocol before the repair: SharedMemoryDictArray.persist pickled the DictProxy itself *)
+(* `legacy` = the protocol before the repair (repo commit 7bf0304): persist pickled the DictProxy of a
+   SharedMemoryDictArray itself *)
 Definition out_files (legacy persist : bool) (id : nat) (d : out_desc)
   : result (files * list (nat * list (list nat * val))) :=
   match d with
